@@ -127,7 +127,7 @@ type gstats struct {
 	intro                                                             string
 }
 
-func runGated(r *ev.Run, dir string, cfg cfgT, seed uint64) (string, *witness, *gstats, bool) {
+func runGated(r *ev.Run, dir string, cfg cfgT, seed uint64, policy string) (string, *witness, *gstats, bool) {
 	g := rng.New(seed)
 	W, B, nIDs := g.Range(2, 3), g.Range(3, 5), g.Range(3, 7)
 	writers, ids, keys := genWriters(g.Derive("writers"), W, B, nIDs)
@@ -225,7 +225,7 @@ func runGated(r *ev.Run, dir string, cfg cfgT, seed uint64) (string, *witness, *
 			}
 		}
 	}
-	sc := &sched.Scenario{Dir: filepath.Join(base, "idx"), KV: cfg.KV, Writers: writers, Gates: gates, G: g.Derive("sched"), MaxSteps: 500,
+	sc := &sched.Scenario{Dir: filepath.Join(base, "idx"), KV: cfg.KV, Writers: writers, Gates: gates, G: g.Derive("sched"), MaxSteps: 700, Policy: policy,
 		Extra:     []func(*sched.Runner){copier, copier},
 		AfterOpen: func(rn *sched.Runner) { close(jobs) },
 	}
@@ -415,7 +415,8 @@ func run(r *ev.Run) {
 			g := r.Rng(fmt.Sprintf("gated-%d", i))
 			cfg := cs[i%len(cs)]
 			seed := g.Uint64()
-			problem, wit, st, timedOut := runGated(r, dir, cfg, seed)
+			policy := sched.Policies[(i/len(cs))%len(sched.Policies)]
+			problem, wit, st, timedOut := runGated(r, dir, cfg, seed, policy)
 			r.Case(fmt.Sprintf("gated/%s/%x", cfg.Name, seed), st.copiesSpanningIntro > 0 || st.copiesWithUnpersisted > 0)
 			mu.Lock()
 			tot.copies += st.copies
